@@ -50,6 +50,14 @@ func c08Item(r *rand.Rand, sel int, tier string) Ev {
 		if tier != "thorough" && r.Intn(3) != 0 {
 			target = 1024 + r.Intn(300)
 		}
+		if r.Intn(2) == 0 {
+			// section_length (= total - 3) just above a multiple of 1024 (what a 10-bit reading of the 12-bit field sees as
+			// a tiny section), at the multiples themselves and at the maximum 4093
+			target = 3 + []int{1024, 2048, 3072}[r.Intn(3)] + []int{0, 1, 5, 16, 17, 20}[r.Intn(6)]
+			if r.Intn(8) == 0 {
+				target = 3 + []int{4093, 4092, 1023, 1022}[r.Intn(4)]
+			}
+		}
 		growSig(r, &s, target)
 	case 20:
 		s.Cmd = absCmd{Kind: "other", Type: []int{4, 7, 255, 1, 8}[r.Intn(5)], Body: rndBytes(r, r.Intn(12))}
